@@ -1488,7 +1488,14 @@ func populateRawVerificationMethod(context, didID, baseURI string,
 	} else if vm.Type == "Ed25519VerificationKey2020" {
 		var err error
 
-		rawVM[jsonldPublicKeyMultibase], err = multibase.Encode(vm.multibaseEncoding, vm.Value)
+		encoding := vm.multibaseEncoding
+		if encoding == 0 {
+			// the key was not given in multibase form (publicKeyBase58/Hex/Pem, or a method built without an
+			// encoding): base58-btc, as NewVerificationMethodFromBytes chooses for this type
+			encoding = multibase.Base58BTC
+		}
+
+		rawVM[jsonldPublicKeyMultibase], err = multibase.Encode(encoding, vm.Value)
 		if err != nil {
 			return nil, err
 		}
